@@ -1,7 +1,7 @@
 (** Property C01 — every live event is delivered exactly once, in time order
     with FIFO ties.  Statements over ALL scripts (programs), pre-run schedules,
     end_time choices and fuel; closed by [exact]; nothing else in this file. *)
-From HS Require Import Base.Prelude Engine.Engine Engine.Script Engine.EngineProofs Engine.ScriptProofs.
+From HS Require Import Base.Prelude Base.PyLib Engine.Engine Engine.Script Engine.EngineProofs Engine.ScriptProofs Gen.EventGen C01.GenTie.
 From Coq Require Import Sorting.Sorted.
 Local Open Scope Z_scope.
 
@@ -94,3 +94,17 @@ Example c01_example :
   map (fun e => (ev_time e, ev_sort e)) (delivered (final 50 0 (Some 2000000000) p pre))
   = [(500000000, 0); (1000000000, 1); (1000000000, 3); (1000001000, 5); (1000001000, 7)].
 Proof. vm_compute. reflexivity. Qed.
+
+(* ------------------------------------------------------------------ *)
+(** The heap order key of the CODE: [Event.__lt__], regenerated from core/event.py on every run
+    (Gen/EventGen.v), is the model's [ev_ltb] and a strict total order on (time, creation index). *)
+Theorem c01_code_event_order : forall (a b c : Event),
+  (forall P da db (pa pb : P), Event___lt__ a b = ev_ltb (ev_of a da pa) (ev_of b db pb))
+  /\ Event___lt__ a a = false
+  /\ (Event___lt__ a b = true -> Event___lt__ b c = true -> Event___lt__ a c = true)
+  /\ (Event___lt__ a b = true \/ Event___lt__ b a = true
+      \/ (Event_time a = Event_time b /\ Event__sort_index a = Event__sort_index b))
+  /\ (Event___lt__ a b = true <->
+      (Event_time a < Event_time b \/ (Event_time a = Event_time b /\ Event__sort_index a < Event__sort_index b))%Z).
+Proof. intros a b c. exact (conj (fun P da db pa pb => tie_event_lt a b da db pa pb) (event_lt_strict_total a b c)). Qed.
+Print Assumptions c01_code_event_order.
